@@ -37,11 +37,14 @@ def run(ctx):
     if quick:
         # (label, cfg, simulate traces per worker, sim workers, reps, e2e stride)
         plan = [("full2", "Tokenize_full2.cfg", 0, 0, 2, 40),
+                ("cont2", "Tokenize_cont2.cfg", 0, 0, 2, 10),
                 ("quote3", "Tokenize_quote3.cfg", 0, 0, 2, 20),
                 ("sim", "Tokenize_sim.cfg", 900, 8, 2, 10)]
     else:
         plan = [("named2", "Tokenize_named2.cfg", 0, 0, 0, 0),      # the invariants by name, no emission
                 ("full2", "Tokenize_full2.cfg", 0, 0, 4, 10),
+                ("cont2", "Tokenize_cont2.cfg", 0, 0, 4, 5),
+                ("cont3", "Tokenize_cont3.cfg", 0, 0, 2, 100),
                 ("wide3", "Tokenize_wide3.cfg", 0, 0, 2, 200),
                 ("wide4", "Tokenize_wide4.cfg", 0, 0, 2, 400),
                 ("case3", "Tokenize_case3.cfg", 0, 0, 3, 60),
@@ -123,11 +126,13 @@ def run(ctx):
         "element, single-type in the old `type:` or the `types:` form or multi-type text+keyword+path with the main type first or last; "
         "type keyword/text/path/exists, "
         "case-sensitive on/off, MaxTokenSize and per-field size at EVERY byte position 1..len and unlimited, partial indexing on/off). "
-        "Exhaustive: all sequences of <= 2 of the 24 classes (widths 1-4 bytes) in every shape; length 3 over the quoting alphabet "
-        "{lo,st,sp,dd,dq,sq,bt,bs}"
+        "Exhaustive: all sequences of <= 2 of the 24 classes (widths 1-4 bytes) at top level and inside an object (single- and "
+        "multi-type), all sequences of <= 2 of {lo,up,sp,sl,dq,bs,d3,l4,s4,iv} inside tags / nested elements; length 3 over the quoting "
+        "alphabet {lo,st,sp,dd,dq,sq,bt,bs}"
         + ("" if quick else "; thorough: length 3 over the width alphabet {lo,up,sl,nl,d3,l4,u4,s4,iv} and length 4 over {lo,sl,d3,l4,u4,s4} "
         "with every limit, length 3 over the case/width alphabet {lo,up,sl,nu,d2,d3,iv}, all length-3 sequences over the 20 classes of "
-        "width <= 3 (flat with every limit; every container / multi shape), length 4 over the two sub-alphabets")
+        "width <= 3 (flat with every limit; multi-type, object member, multi-type object member), length 3 over the 10-class alphabet "
+        "inside tags / nested elements, length 4 over the two sub-alphabets")
         + "; seeded -simulate: random values of length "
         "3, 4 and 5 over all classes with a random configuration incl. word limit x field limit. Each case is instantiated with `reps` "
         "seeded palette strings; every probe is asked in every admissible style (double/single/back-quoted, bare, U+FFFD-substituted). "
